@@ -286,4 +286,108 @@ theorem allowsChanges_unlisted (apcs : List APC) (st : Store) (cs : List Change)
         intro e
         exact hv e
 
+
+/-! ### duplicate keys: Go map semantics of `decodeObj` -/
+
+/-- the decoded value of the LAST occurrence of key `k` in a raw JSON object -/
+def lastValue : List (String × Json) → String → Option Json
+  | [], _ => none
+  | (k, v) :: rest, k' =>
+    match lastValue rest k' with
+    | some x => some x
+    | none => if k == k' then some (decode v) else none
+
+theorem hasKey_iff_lookup (o : Obj) (k : String) : hasKey o k = (o.lookup k).isSome := by
+  induction o with
+  | nil => rfl
+  | cons kv rest ih =>
+    obtain ⟨l, w⟩ := kv
+    simp only [hasKey, List.any_cons, List.lookup] at ih ⊢
+    by_cases h : l = k
+    · subst h; simp
+    · have h1 : (l == k) = false := by simpa using h
+      have h2 : (k == l) = false := by simpa using (fun e : k = l => h e.symm)
+      simp only [h1, h2, Bool.false_or]
+      exact ih
+
+theorem lookup_insertSorted (k : String) (v : Json) (o : Obj) (hk : o.lookup k = none) (k' : String) :
+    (insertSorted k v o).lookup k' = if k' == k then some v else o.lookup k' := by
+  induction o with
+  | nil =>
+    simp only [insertSorted, List.lookup]
+    split <;> simp_all
+  | cons lw rest ih =>
+    obtain ⟨l, w⟩ := lw
+    have hne : (k == l) = false := by
+      cases h : (k == l) with
+      | false => rfl
+      | true => simp [List.lookup, h] at hk
+    have hrest : rest.lookup k = none := by
+      simpa [List.lookup, hne] using hk
+    simp only [insertSorted]
+    split
+    · -- inserted in front
+      simp only [List.lookup]
+      cases h1 : (k' == k) with
+      | true => simp
+      | false => simp
+    · simp only [List.lookup]
+      cases h2 : (k' == l) with
+      | true =>
+        have : (k' == k) = false := by
+          have e1 : k' = l := by simpa using h2
+          have e2 : ¬ k = l := by simpa using hne
+          simp only [beq_eq_false_iff_ne, ne_eq]
+          intro e; exact e2 (e ▸ e1)
+        simp [this]
+      | false =>
+        simp only []
+        exact ih hrest
+
+/-- Go map semantics of duplicate keys: the decoded object maps each key to its last occurrence -/
+theorem decodeObj_lookup (kvs : List (String × Json)) (k' : String) :
+    (decodeObj kvs).lookup k' = lastValue kvs k' := by
+  induction kvs generalizing k' with
+  | nil => rfl
+  | cons kv rest ih =>
+    obtain ⟨k, v⟩ := kv
+    simp only [decodeObj, lastValue]
+    split
+    · rename_i hh
+      rw [hasKey_iff_lookup, ih k] at hh
+      rw [ih k']
+      cases h : lastValue rest k' with
+      | some x => rfl
+      | none =>
+        simp only []
+        split
+        · rename_i e
+          have : k = k' := by simpa using e
+          subst this
+          rw [h] at hh; cases hh
+        · rfl
+    · rename_i hh
+      have hnone : (decodeObj rest).lookup k = none := by
+        rw [hasKey_iff_lookup] at hh
+        cases h : (decodeObj rest).lookup k with
+        | none => rfl
+        | some x => rw [h] at hh; simp at hh
+      rw [lookup_insertSorted k (decode v) _ hnone k', ih k']
+      cases h : lastValue rest k' with
+      | some x =>
+        simp only []
+        split
+        · rename_i e
+          have : k' = k := by simpa using e
+          subst this
+          rw [ih k', h] at hnone; cases hnone
+        · rfl
+      | none =>
+        simp only []
+        by_cases e : k' = k
+        · subst e; simp
+        · have e1 : (k' == k) = false := by simpa using e
+          have e2 : (k == k') = false := by simpa using (fun x : k = k' => e x.symm)
+          simp [e1, e2]
+
 end KV.Perm
